@@ -137,3 +137,17 @@ Example C05_nonvacuous :
               /\ row_of s' 5%positive = Some (14%Z, Some (CNum 0%Z))) /\
   step ex_s0 (AppendBond 1%positive 9%positive) = Unspec.
 Proof. vm_compute. repeat split. eexists. repeat split. Qed.
+
+(* ---- the fuel of the model's private breadth-first search (remove_substituent) always suffices: each iteration
+        pops one queue element, each pushed element is a bond endpoint that was not visited before, so
+        |queue| + |unvisited endpoints| drops by one per iteration and starts at most at 1 + 2 * |bonds|.
+        Hence NO operation ever returns OutOfFuel: the exclusion in the theorems above costs nothing, and a
+        history stops (`run` = None) only at the recorded finding (Unspec). *)
+From Molli Require Import Proofs.MolEditFuel.
+Theorem C05_bfs_fuel_sufficient : forall s vis out a, bfs_loop (bfs_fuel s) s vis [a] out <> None.
+Proof. exact bfs_fuel_sufficient. Qed.
+Print Assumptions C05_bfs_fuel_sufficient.
+
+Theorem C05_never_out_of_fuel : forall s o, step s o <> OutOfFuel.
+Proof. exact step_never_out_of_fuel. Qed.
+Print Assumptions C05_never_out_of_fuel.
